@@ -448,8 +448,8 @@ func c12Gen(t *rapid.T) c12Case {
 	if len(paths) > 0 && (c.Op == "delete" || c.Op == "replace" || rapid.Bool().Draw(t, "nonroot")) {
 		c.Entry = paths[rapid.IntRange(0, len(paths)-1).Draw(t, "entry")]
 	}
-	if len(c.Entry) == 0 && (c.Op == "delete" || c.Op == "replace") {
-		c.Op = "upsert"
+	if len(c.Entry) == 0 && (c.Op == "replace" || (c.Op == "delete" && rapid.Bool().Draw(t, "not-the-root"))) {
+		c.Op = "upsert" // (a delete of the root itself stays in: it has to fail cleanly)
 	}
 	en, _, _ := dm.Resolve(root, target, c.Entry)
 	isList := len(c.Entry) > 0 && en.Kind == "list" && c.Entry[len(c.Entry)-1].Key == nil
